@@ -218,7 +218,16 @@ def seq_from_items(run, items, ty):
     return Val(ty, z3.Concat(*units) if len(units) > 1 else units[0])
 
 
-def norm_index(i, n):
+def norm_index(i, n, run=None):
+    i = z3.simplify(i)
+    if z3.is_int_value(i):
+        return i if i.as_long() >= 0 else z3.simplify(i + n)
+    if run is not None and not run.spec:
+        try:
+            if not run.feasible(i < 0):
+                return i          # provably non-negative on this path: no wrap-around term
+        except z3.Z3Exception:
+            pass
     return z3.If(i < 0, i + n, i)
 
 
@@ -251,12 +260,12 @@ def getitem(run, base, key, node):
         key = run.coerce(unopt(run, key, node), TInt)
         n = z3.Length(base.t)
         run.implicit_raise(z3.And(key.t >= -n, key.t < n), "IndexError", node, "string index out of range")
-        return Val(TStr, z3.SubString(base.t, norm_index(key.t, n), 1))
+        return Val(TStr, z3.SubString(base.t, norm_index(key.t, n, run), 1))
     if isinstance(ty, TSeq):
         key = run.coerce(unopt(run, key, node), TInt)
         n = z3.Length(base.t)
         run.implicit_raise(z3.And(key.t >= -n, key.t < n), "IndexError", node, "list index out of range")
-        v = Val(ty.elem, base.t[norm_index(key.t, n)])
+        v = Val(ty.elem, base.t[norm_index(key.t, n, run)])
         run.wf(v)
         return v
     if isinstance(ty, TDict):
